@@ -301,7 +301,7 @@ def feature(c):
             max([len(b) for bs in cfg["bat"].values() for b in bs] or [0]))
 
 
-def drive(wd, binary, name, cases, reps, verdict, acc, trace=True, max_traces=None, watchdog=4000):
+def drive(wd, binary, name, cases, reps, verdict, acc, trace=True, max_traces=None, watchdog=3000):
     """Direction A on the real executor; returns the path of the recorded traces."""
     for i, c in enumerate(cases):
         c["id"] = i + 1
@@ -488,14 +488,22 @@ def run(pid, tier, replay=None):
 
     if replay:
         rep = json.load(open(replay))
-        cases = []
+        cases, bare = [], []
         for e in rep["examples"]:
             c = e["case"]
             if c.get("cfg") and c.get("exp"):
                 cases.append({"cfg": c["cfg"], "exp": c["exp"], "order": c["order"]})
+            elif c.get("cfg"):
+                bare.append(c)                       # a rejected trace: expectations are recomputed by the oracle
+        for c in bare:
+            nodes = c.get("order") or NODES3
+            plan = [dict(o, roots=o.get("roots"), keys=o.get("keys", []), conc=o.get("conc", False)) for o in c["cfg"]["plan"]]
+            cases += export_cases(wd, "replay", nodes, [{"bat": c["cfg"]["bat"], "pan": c["cfg"]["pan"], "par": c["cfg"]["par"],
+                                                         "plan": plan}])
         if not cases:
             raise vf.MachineryError("replay file has no executable case")
-        drive(wd, binary, "replay", cases, 5, verdict, acc, trace=False)
+        tp = drive(wd, binary, "replay", cases, 10, verdict, acc)
+        check_traces(wd, tp, NODES4, verdict, acc, "replay")
         return verdict.finish()
 
     mc, ro = families(pid, tier, rng)
@@ -521,11 +529,26 @@ def run(pid, tier, replay=None):
     sel = os.path.join(wd, "traces_selected.ndjson")
     n_sel = select_traces([tp for _n, _nd, tp in tfiles], sel, trace_budget, rng)
     acc.validated_traces, acc.validated_events = n_sel
-    check_traces(wd, sel, NODES4, verdict, acc, "sel")
-    if thorough:
-        binding_selftests(wd, sel, NODES4, acc)
-        acc.pkg = package_test_traces(wd, acc, verdict)
-        acc.sim = simulate_4(wd, pid, rng, acc)
+    if verdict.violations:
+        # direction A already disagrees: the traces of a misbehaving executor add nothing to the verdict
+        acc.validated_traces = acc.validated_events = 0
+    else:
+        check_traces(wd, sel, NODES4, verdict, acc, "sel")
+        kinds = {}
+        for line in open(sel):
+            k = json.loads(line)["ev"]
+            kinds[k] = kinds.get(k, 0) + 1
+        acc.kinds = kinds
+        core = (["cas.win", "close", "start.hit", "evict.apply", "wake.done"] if pid == "C33" else
+                ["cas.win", "close", "cycle", "panic.cancel", "panic.reset", "wake.ctx", "wake.done", "join.fail"])
+        missing = [k for k in core if not kinds.get(k)]
+        if missing and not verdict.violations:
+            raise vf.MachineryError("vacuous trace validation: no event of kind %s in the validated traces" % missing)
+        if thorough and not verdict.violations:
+            binding_selftests(wd, sel, NODES4, acc)
+            acc.pkg = package_test_traces(wd, acc, verdict)
+            acc.sim = simulate_4(wd, pid, rng, acc)
+            acc.model_selftest = model_selftest(wd)
     rc = verdict.finish()
     vf.write_evidence(pid, tier, "model_checking", {
         "states": acc.states, "transitions": acc.trans,
@@ -544,6 +567,8 @@ def run(pid, tier, replay=None):
         "binding_selftests": acc.selftests,
         "package_tests": getattr(acc, "pkg", None),
         "simulation_4_nodes": getattr(acc, "sim", None),
+        "validated_event_kinds": getattr(acc, "kinds", None),
+        "model_selftest": getattr(acc, "model_selftest", None),
     }, ASSUMPTIONS, time.time() - t0, violations=len(verdict.violations), known=verdict.known_hits)
     return rc
 
@@ -563,6 +588,23 @@ def simulate_4(wd, pid, rng, acc):
         raise vf.MachineryError("spec-level (simulation, 4 nodes): %s violated; see %s" % (r.violated, r.stdout_path))
     acc.trans += r.generated
     return {"cases": len(cases), "behaviours": num, "states_generated": r.generated}
+
+
+def model_selftest(wd):
+    """The model is not vacuous: with Fix = {} (the code as found) TLC must find the stuck pending result
+    (par=1, Run(a panics, b), Run(b)) and the stale eviction."""
+    leaf = {"a": [], "b": [], "c": []}
+    out = {}
+    for name, case, want in (
+            ("stuck", {"bat": leaf, "pan": ["a"], "par": 1, "plan": [runop(["a", "b"]), runop(["b"])]}, "NoStuckPending"),
+            ("stale", {"bat": {"a": [["b"]], "b": [], "c": []}, "pan": [], "par": 1,
+                       "plan": [runop(["a"]), evict("b", conc=True), runop(["a"])]}, "CacheExact")):
+        mod, cfg = write_mc(wd, "selftest_" + name, NODES3, [case], fix="{}")
+        r = vf.tlc(mod, cfg, wd, workers=1, timeout=300, case_sink=lambda o: None)
+        out[name] = r.violated
+        if not r.violated:
+            raise vf.MachineryError("model self-test %s: the model of the unrepaired code violates nothing (expected %s)" % (name, want))
+    return out
 
 
 def select_traces(paths, out, budget, rng):
